@@ -11,7 +11,7 @@ import (
 
 func init() {
 	register(&propDef{
-		ID: "C01", Level: "other", Run: runC01,
+		ID: "C01", Level: "other", Run: withShared(runC01, share{"C02", runC02, ruleIs("layer-arith")}),
 		Explanation: "The bookkeeping identities of the chip accounts are shown inductive over every piece of code that can write a chip account (writers are discovered from the program's write sets, not listed): I1 InitialStackSize + Pot = Bankroll and I2 StackSize + Wager = InitialStackSize hold at the exit of every path of every writer whenever they hold at entry (path-partitioned affine dataflow; loop bodies analysed for a fresh element); on every in-round path the change of Status.CurrentRoundPot equals the change of the payer's Wager; the end-of-round sweep of wagers and the reset of the round pot always happen together with no event emitted in between; settlement's Final and Changed always move by the same amount and start from the player's own Bankroll; the pot builder is fed Pot+Wager, Idx and Fold of every player and its result is what gets published; no caller-supplied amount reaches the chip mover negative (shared with C12). Does NOT decide non-negativity in general, that pots add up to the contributions, zero-sum of the result, or loss bounds: those are arithmetic over loops in pot/ and settlement/.",
 		Trusted:     commonTrusted,
 		Assumptions: []string{"distinct *PlayerState objects do not alias (each player has its own state object)", "alias player.state == Player.State()"},
@@ -494,6 +494,54 @@ func runC01(c *Ctx) {
 			}
 		}
 		c.check(len(bad) == 0, "pot-feed", fnKey(publisher), p.FnPos(publisher), "every player's Pot+Wager, Idx and Fold are fed and the resulting pots are published", "the pot builder is fed wrongly", uniq(bad, 4)...)
+	}
+
+	// ---- pots-refreshed: a handler that republishes the pots does so on every path that does not
+	// fail. The pots are a derived view of Pot+Wager; a handler that refreshes them on some paths
+	// only leaves a stale view published at a wait point
+	if publisher != nil {
+		reach := map[*ssa.Function]bool{}
+		reaches := func(f *ssa.Function) bool {
+			if f == nil {
+				return false
+			}
+			if v, ok := reach[f]; ok {
+				return v
+			}
+			reach[f] = f == publisher || ix.Reachable(f)[publisher]
+			return reach[f]
+		}
+		nH := 0
+		for _, ev := range sortedKeys(eg.Handler) {
+			h := eg.Handler[ev]
+			if h == nil || !reaches(h) {
+				continue
+			}
+			var bad []string
+			with := 0
+			for _, o := range eg.Outcomes(h) {
+				if o.Kind == "refuse" || o.Kind == "fail" {
+					continue
+				}
+				has := false
+				for _, e := range o.Events() {
+					if (e.Kind == "call" || e.Kind == "enter") && e.Fn != nil && !eg.MayEmit[e.Fn] && reaches(e.Fn) {
+						has = true
+					}
+				}
+				if has {
+					with++
+				} else {
+					bad = append(bad, "a path ending in "+o.Kind+" "+o.Event+" skips the pot refresh under ["+condsString(o.Conds())+"]")
+				}
+			}
+			if with == 0 {
+				continue // reaches the publisher only through a later event
+			}
+			nH++
+			c.check(len(bad) == 0, "pots-refreshed", "handler:"+ev, p.FnPos(h), "the pots are rebuilt on every non-failing path of this handler", "stale pots stay published", uniq(bad, 3)...)
+		}
+		c.floor("pots-refreshed", "handlers that republish the pots", nH, 2)
 	}
 
 	// ---- amount-nonneg (shared with C12)
